@@ -55,3 +55,139 @@ Proof.
   intros Hp. destruct (ref_to_msa_from_spec ref 0 (p - 1) ltac:(lia)) as (col & Hcol & _ & Hn & Hf).
   unfold align_pos, ref_to_msa. replace (p - 1 + nth (p - 1) (ref_to_msa_from 0 ref) 0%nat)%nat with col by lia. auto.
 Qed.
+
+(* ================= the codon loop: every disjoint position of a region is mentioned, and nothing else ================= *)
+From Coq Require Import ZifyNat ZifyBool.
+Ltac Zify.zify_post_hook ::= Z.div_mod_to_equations.
+
+Definition dis (ref que : list N) (r2m : list nat) (p : nat) : bool :=
+  N.land (nth (align_pos r2m p) que 0) (nth (align_pos r2m p) ref 0) <? 16.
+Definition vp (v : variant) : nat := Z.to_nat (v_pos v).
+Lemma vp_mk_nuc r q p : vp (mk_nuc r q p) = p. Proof. unfold vp, mk_nuc. cbn. apply Nat2Z.id. Qed.
+
+Section CodonLoop.
+  Variables (ref que : list N) (r2m : list nat) (g : region).
+  Hypothesis no_ref_gap : forall p, In p (g_pos g) -> (nth (align_pos r2m p) ref 0 =? 244) = false.
+
+  Definition AInv (pre : list nat) (s : aast) : Prop :=
+    a_panic s = false ->
+    flat_map snd (a_out s) ++ map vp (a_snps s) = filter (dis ref que r2m) pre /\
+    a_cc s = (length pre mod 3)%nat /\ (a_cc s = 0%nat -> a_snps s = []).
+
+  Lemma flat_map_snd_trace l : flat_map snd (map trace_nuc l) = map vp l.
+  Proof. induction l as [|v t IH]; [reflexivity|]. cbn. rewrite IH. reflexivity. Qed.
+
+  Lemma aa_step_inv pre s p : In p (g_pos g) -> AInv pre s -> AInv (pre ++ [p]) (aa_step ref que r2m g s p).
+  Proof.
+    intros Hp Hinv. unfold AInv in *. unfold aa_step. destruct (a_panic s) eqn:Hpan; [intros H; congruence|].
+    specialize (Hinv eq_refl). destruct Hinv as (Hm & Hcc & Hz).
+    rewrite (no_ref_gap p Hp).
+    rewrite filter_app. cbn [filter]. fold (dis ref que r2m p).
+    set (snps' := if dis ref que r2m p then a_snps s ++ [mk_nuc (dec (nth (align_pos r2m p) ref 0)) (dec (nth (align_pos r2m p) que 0)) p] else a_snps s).
+    assert (Hs' : map vp snps' = map vp (a_snps s) ++ (if dis ref que r2m p then [p] else [])).
+    { unfold snps'. destruct (dis ref que r2m p); [rewrite map_app; cbn [map]; rewrite vp_mk_nuc; reflexivity|rewrite app_nil_r; reflexivity]. }
+    assert (Hlen : length (pre ++ [p]) = S (length pre)) by (rewrite app_length; cbn; lia).
+    unfold dis in snps'. fold snps'.
+    destruct (Nat.eqb_spec (S (a_cc s)) 3) as [E3|E3].
+    - destruct (nth_error (g_trans g) (a_aa s)) as [ra|]; [|cbn [a_panic]; intros H; discriminate].
+      cbn [a_panic a_out a_snps a_cc]. intros _. rewrite Hlen. split; [|split; [lia|reflexivity]].
+      rewrite app_nil_r. rewrite <- Hm, <- app_assoc, <- Hs'.
+      destruct (negb _ && negb _); rewrite flat_map_app; [cbn [flat_map snd]; rewrite app_nil_r; reflexivity|rewrite flat_map_snd_trace; reflexivity].
+    - cbn [a_panic a_out a_snps a_cc]. intros _. rewrite Hlen. split; [|split; [lia|lia]].
+      rewrite Hs', app_assoc, Hm. reflexivity.
+  Qed.
+
+  Lemma aa_fold_inv post : forall pre s, (forall p, In p post -> In p (g_pos g)) -> AInv pre s ->
+    AInv (pre ++ post) (fold_left (aa_step ref que r2m g) post s).
+  Proof.
+    induction post as [|p t IH]; intros pre s Hin Hi; cbn [fold_left]; [rewrite app_nil_r; exact Hi|].
+    replace (pre ++ p :: t) with ((pre ++ [p]) ++ t) by (rewrite <- app_assoc; reflexivity).
+    apply IH; [intros q Hq; apply Hin; right; exact Hq|]. apply aa_step_inv; [apply Hin; left; reflexivity|exact Hi].
+  Qed.
+
+  (* for a region whose length is a multiple of 3, the positions mentioned by the records the codon loop emits -
+     the nuc: records and the (nuc:...) lists of the aa: records - are EXACTLY the positions of the region, in
+     region order, at which the reference and query symbols test disjoint: none dropped, none invented *)
+  Theorem aa_mentions_exact out : (length (g_pos g) mod 3 = 0)%nat ->
+    get_aas_traced ref que r2m g = Ok out -> flat_map snd out = filter (dis ref que r2m) (g_pos g).
+  Proof.
+    intros Hmod H. unfold get_aas_traced in H.
+    pose proof (aa_fold_inv (g_pos g) [] aa_init (fun p Hp => Hp)) as Hi. cbn [app] in Hi.
+    assert (H0 : AInv [] aa_init) by (intros _; cbn; repeat split; reflexivity).
+    specialize (Hi H0). destruct (a_panic (fold_left (aa_step ref que r2m g) (g_pos g) aa_init)) eqn:Hp; [discriminate|].
+    injection H as <-. destruct (Hi Hp) as (Hm & Hcc & Hz). rewrite Hmod in Hcc. rewrite (Hz Hcc), app_nil_r in Hm. exact Hm.
+  Qed.
+End CodonLoop.
+
+(* ================= merge, sort, dedupe: what the final list mentions ================= *)
+Section Merge.
+  Variables (ref que : list N) (gs : list region).
+  Let r2m := ref_to_msa ref.
+  Let reflen := length (filter nongap ref).
+  Let inter := inter_of gs reflen.
+  Hypothesis regions_in_range : forall g p, In g gs -> In p (g_pos g) -> (1 <= p <= reflen)%nat.
+  Hypothesis regions_mod3 : forall g, In g gs -> (length (g_pos g) mod 3 = 0)%nat.
+
+  Lemma all_aas_mentions : forall l aas, (forall g, In g l -> In g gs) -> all_aas ref que r2m l = Ok aas ->
+    flat_map snd aas = flat_map (fun g => filter (dis ref que r2m) (g_pos g)) l.
+  Proof.
+    induction l as [|g t IH]; intros aas Hsub H; cbn [all_aas] in H; [injection H as <-; reflexivity|].
+    destruct (get_aas_traced ref que r2m g) as [a| |] eqn:Ea; try discriminate. cbn [bind] in H.
+    destruct (all_aas ref que r2m t) as [r| |] eqn:Er; try discriminate. cbn [bind] in H. injection H as <-.
+    rewrite flat_map_app. cbn [flat_map]. f_equal.
+    - apply (aa_mentions_exact ref que r2m g); [|apply regions_mod3; apply Hsub; left; reflexivity|exact Ea].
+      intros p Hp. apply align_pos_is_own_column. apply (regions_in_range g p); [apply Hsub; left; reflexivity|exact Hp].
+    - apply IH; [intros g' Hg'; apply Hsub; right; exact Hg'|reflexivity].
+  Qed.
+
+  Lemma nucs_mentions : flat_map snd (map trace_nuc (get_nucs ref que r2m inter)) = filter (dis ref que r2m) inter.
+  Proof.
+    rewrite (flat_map_snd_trace). unfold get_nucs. induction inter as [|p t IH]; [reflexivity|].
+    cbn [flat_map filter]. unfold dis at 1. rewrite (N.land_comm (nth (align_pos r2m p) que 0)).
+    destruct (N.land _ _ <? 16); cbn [map app]; [rewrite vp_mk_nuc|]; rewrite IH; reflexivity.
+  Qed.
+
+  (* the merged list (indels, intergenic nucs, per-region records) mentions p iff p is a reference position
+     whose symbols test disjoint *)
+  Theorem merged_mentions_exact aas : all_aas ref que r2m gs = Ok aas -> forall p,
+    In p (flat_map snd (map (fun i => (mk_indel i, [])) (Indels.get_indels (cols_of_rows ref que)) ++
+                        map trace_nuc (get_nucs ref que r2m inter) ++ aas)) <->
+    ((1 <= p <= reflen)%nat /\ dis ref que r2m p = true).
+  Proof.
+    intros Ha p. rewrite !flat_map_app, !in_app_iff.
+    assert (E0 : flat_map snd (map (fun i => (mk_indel i, @nil nat)) (Indels.get_indels (cols_of_rows ref que))) = []).
+    { induction (Indels.get_indels (cols_of_rows ref que)) as [|i t IH]; [reflexivity|]. cbn. exact IH. }
+    rewrite E0, nucs_mentions, (all_aas_mentions gs aas (fun g H => H) Ha). split.
+    - intros [[]|[H|H]].
+      + apply filter_In in H as [Hi Hd]. split; [|exact Hd]. unfold inter, inter_of in Hi. apply filter_In in Hi as [Hi _]. apply in_seq in Hi. lia.
+      + apply in_flat_map in H as (g & Hg & H). apply filter_In in H as [Hp Hd]. split; [apply (regions_in_range g p Hg Hp)|exact Hd].
+    - intros [Hr Hd]. right.
+      destruct (existsb (fun g => existsb (Nat.eqb p) (g_pos g)) gs) eqn:Ex.
+      + right. apply existsb_exists in Ex as (g & Hg & Ex). apply existsb_exists in Ex as (q & Hq & Ex). apply Nat.eqb_eq in Ex. subst q.
+        apply in_flat_map. exists g. split; [exact Hg|]. apply filter_In. split; assumption.
+      + left. apply filter_In. split; [|exact Hd]. unfold inter, inter_of. apply filter_In. split; [apply in_seq; lia|]. rewrite Ex. reflexivity.
+  Qed.
+
+  (* sorting permutes, dedupe only removes: nothing is invented *)
+  Lemma ssort_In {E} (lt : E -> E -> bool) l x : In x (ssort E lt l) <-> In x l.
+  Proof.
+    unfold ssort. assert (G : forall acc, In x (fold_left (fun acc y => ins E lt y acc) l acc) <-> In x acc \/ In x l).
+    { induction l as [|y t IH]; intros acc; cbn [fold_left]; [cbn; tauto|]. rewrite IH, ins_In. cbn [In]. intuition congruence. }
+    rewrite G. cbn. tauto.
+  Qed.
+  Lemma dedupe_sub l : forall prev x, In x (dedupe prev l) -> In x l.
+  Proof.
+    induction l as [|v t IH]; intros prev x H; cbn [dedupe] in H; [contradiction|].
+    destruct (_ && _); [right; eapply IH; eauto|].
+    destruct (match prev with Some p => variant_eqb (fst v) p | None => false end); [right; eapply IH; eauto|].
+    destruct H as [<-|H]; [left; reflexivity|right; eapply IH; eauto].
+  Qed.
+
+  Theorem nuc_mentions_sound out : variants_pair_traced ref que gs inter = Ok out ->
+    forall p, In p (flat_map snd out) -> ((1 <= p <= reflen)%nat /\ dis ref que r2m p = true).
+  Proof.
+    unfold variants_pair_traced. fold r2m. destruct (all_aas ref que r2m gs) as [aas| |] eqn:Ea; try discriminate.
+    cbn [bind]. intros [= <-] p Hp. apply in_flat_map in Hp as (x & Hx & Hp).
+    apply dedupe_sub in Hx. apply ssort_In in Hx. apply (merged_mentions_exact aas Ea p). apply in_flat_map. eauto.
+  Qed.
+End Merge.
